@@ -80,6 +80,19 @@ def extract(repo, cls_name: str) -> MachineDecl:
     if init is None:
         raise AnalysisError(f"{cls_name} has no __init__")
     m = MachineDecl(cls)
+    # a local bound once to a class (`new_transition = secsgem.common.Transition`) is that class
+    counts: dict = {}
+    for st in rules.func_stmts(init.node):
+        if isinstance(st, ast.Assign):
+            for t in st.targets:
+                if isinstance(t, ast.Name):
+                    counts.setdefault(t.id, []).append(st.value)
+    alias = {n: dotted(v[0]) for n, v in counts.items() if len(v) == 1 and isinstance(v[0], (ast.Name, ast.Attribute)) and dotted(v[0])}
+
+    def callee(c):
+        n = call_name(c) or ""
+        return alias.get(n, n)
+
     for st in rules.func_stmts(init.node):
         if not isinstance(st, (ast.Assign, ast.AnnAssign)):
             continue
@@ -90,7 +103,7 @@ def extract(repo, cls_name: str) -> MachineDecl:
         attr = _self_attr(targets[0])
         if attr is None:
             continue
-        if isinstance(value, ast.Call) and (call_name(value) or "").split(".")[-1] == "State":
+        if isinstance(value, ast.Call) and callee(value).split(".")[-1] == "State":
             args = list(value.args)
             kw = {k.arg: k.value for k in value.keywords}
             enum = norm(args[0]) if args else None
@@ -107,7 +120,7 @@ def extract(repo, cls_name: str) -> MachineDecl:
             m.initial_current = _self_attr(value)
         elif attr == "_transitions" and isinstance(value, ast.List):
             for elt in value.elts:
-                if not (isinstance(elt, ast.Call) and (call_name(elt) or "").split(".")[-1] == "Transition"):
+                if not (isinstance(elt, ast.Call) and callee(elt).split(".")[-1] == "Transition"):
                     raise AnalysisError(f"{cls_name}._transitions contains a non-Transition element: {norm(elt)}")
                 a = list(elt.args)
                 kw = {k.arg: k.value for k in elt.keywords}
